@@ -1177,15 +1177,28 @@ func (m *Nitro) LoadFromDisk(dir string, concurr int, callb ItemCallback) (*Snap
 		deltadir := filepath.Join(dir, "delta")
 		var files []string
 		if bs, err := ioutil.ReadFile(filepath.Join(deltadir, "files.json")); err == nil {
-			json.Unmarshal(bs, &files)
+			if err = json.Unmarshal(bs, &files); err != nil {
+				return nil, err
+			}
+		} else if !os.IsNotExist(err) {
+			return nil, err
 		}
 
 		readers := make([]FileReader, len(files))
 		errors := make([]error, len(files))
 		writers := make([]*Writer, concurr)
-		deltaChecksums := make([]uint32, len(files))
+		var deltaChecksums []uint32
+		var hasDeltaChecksums bool
 		if bs, err := ioutil.ReadFile(filepath.Join(deltadir, "checksums.json")); err == nil {
-			json.Unmarshal(bs, &deltaChecksums)
+			if err = json.Unmarshal(bs, &deltaChecksums); err != nil {
+				return nil, err
+			}
+			if len(deltaChecksums) != len(files) {
+				return nil, ErrCorruptSnapshot
+			}
+			hasDeltaChecksums = true
+		} else if !os.IsNotExist(err) {
+			return nil, err
 		}
 
 		defer func() {
@@ -1256,7 +1269,7 @@ func (m *Nitro) LoadFromDisk(dir string, concurr int, callb ItemCallback) (*Snap
 		wg.Wait()
 
 		for i, rdr := range readers {
-			if deltaChecksums[i] != 0 && deltaChecksums[i] != rdr.Checksum() {
+			if hasDeltaChecksums && deltaChecksums[i] != rdr.Checksum() {
 				return nil, ErrCorruptSnapshot
 			}
 		}
